@@ -284,6 +284,10 @@ theorem all_prim_equalsFuel : ∀ (n : Nat) (ta : Ty) (a : Payload) (tb : Ty) (b
     · res_all
       all_goals first
         | (rw [Res.all_map]; apply Res.all_of_forall; intro acc; exact isPrim_accVal acc)
+        | (simp only []; repeat' split) <;> first
+            | (simp; done)
+            | (simp [Value.isPrim, unkBool, boolVal, Refine.kindOk]; done)
+            | (rename_i x _; cases x <;> simp [Value.isPrim, unkBool, boolVal, Refine.kindOk])
         | skip
 
 theorem all_prim_equalsP (ta : Ty) (a : Payload) (tb : Ty) (b : Payload) :
